@@ -54,9 +54,20 @@ def special_states():
     return reqs
 
 
+def offset_sweep():
+    """save points at every buffer offset around the end of the block (and the first bytes of the next), continued with byte-granular
+    and word reads: the serialised index has a representational corner there (omitted when out of range)"""
+    out = []
+    for N in (8, 12, 20):
+        for off in list(range(244, 262)) + [1, 2, 3, 4, 5, 511, 512, 513]:
+            for after in ("fill:1,fill:2,u32", "u32,fill:3", "fill:5,u64", "u64,fill:1"):
+                out.append("serde gen=chacha n=%d seed=%d before=fill:%d after=%s" % (N, 7 + off, off, after))
+    return out
+
+
 def corpus(build):
     z = "0,0,0,0,0,0,0,0"
-    return special_states() + ["serde gen=chacha n=12 seed=42 before= after=u32",
+    return special_states() + offset_sweep() + ["serde gen=chacha n=12 seed=42 before= after=u32",
             "serde gen=chacha n=20 key=%s ctr=0 str=0 before=fill:256 after=u32" % z,     # index still out of range after a direct fill
             "serde gen=chacha n=8 key=%s ctr=0 str=0 before=fill:255,fill:1 after=u64" % z,  # index == 256 exactly
             "serde gen=xoshiro seed=0 before= after=u64"]
